@@ -10,7 +10,7 @@ Exit 0: property held on everything explored; 1: VIOLATION line printed; 2: tool
 import json, os, re, shutil, subprocess, sys, time, concurrent.futures as cf
 
 ROOT = os.path.dirname(os.path.dirname(os.path.abspath(__file__)))
-REPO = "/repo"
+REPO = os.environ.get("VERIF_REPO", "/repo")
 WORK = os.path.join(ROOT, "work")
 HARNESS = os.path.join(ROOT, "harness")
 NCPU = os.cpu_count() or 8
